@@ -604,8 +604,11 @@ for en, eq in eqs.items():
         continue
     full = {{**sub, target: core}}
     def sides(full):
-        Le = eq.lhs.subs(reps).subs(full, simultaneous=True); Re = eq.rhs.subs(reps).subs(full, simultaneous=True)
-        scale = sum(abs(sp.N(t.subs(reps).subs(full, simultaneous=True))) for side in (eq.lhs, eq.rhs) for t in sp.Add.make_args(side))
+        # numbers go in as 40-digit floats: an exact rational raised to an exact (huge) power would be expanded digit by digit
+        full = {{k: (sp.Float(v, 40) if sp.sympify(v).is_number and sp.sympify(v).is_real else v) for k, v in full.items()}}
+        repsf = {{k: (sp.Float(v, 40) if sp.sympify(v).is_number and sp.sympify(v).is_real else v) for k, v in reps.items()}}
+        Le = eq.lhs.subs(repsf).subs(full, simultaneous=True); Re = eq.rhs.subs(repsf).subs(full, simultaneous=True)
+        scale = sum(abs(sp.N(t.subs(repsf).subs(full, simultaneous=True))) for side in (eq.lhs, eq.rhs) for t in sp.Add.make_args(side))
         return sp.N(Le), sp.N(Re), scale
     L, R, scale = sides(full)
     print("equation", en, ":", eq, " lhs", L, " rhs", R, " scale of terms", scale)
@@ -709,11 +712,20 @@ def run(ctx):
                 ctx.violation(f"C02:{r['name']}", f"{r['name']}: {r['why']}", REPLAY_PUBLISHED.format(item=tuple(r["item"])))
                 continue
             script = REPLAY_F if (en or "").startswith("F:") else REPLAY
-            ctx.violation(f"C02:{r['name']}", f"{r['name']}: {r['why']} (mapping {r.get('par2sym')}, returned {r.get('result')})",
-                          script.format(item=tuple(r["item"]), vals=r.get("vals") or {}, ename=(en[2:] if (en or "").startswith("F:") else en), magnitude=r.get("magnitude", False)))
-    from checks import c02_vectors, c02_vecwrap, c02_fieldlaws
+            fmt = lambda vals: script.format(item=tuple(r["item"]), vals=vals, ename=(en[2:] if (en or "").startswith("F:") else en), magnitude=r.get("magnitude", False))
+            hit = ctx.violation(f"C02:{r['name']}", f"{r['name']}: {r['why']} (mapping {r.get('par2sym')}, returned {r.get('result')})", fmt(r.get("vals") or {}))
+            if not hit and script is REPLAY:
+                # the solver's model did not reproduce (transcendental laws: uninterpreted powers / logs): the obligation stays inconclusive,
+                # but a few generic concrete points are still tried through the same replay -- a point that fails is a violation all the same
+                names = list((r.get("vals") or {}).keys())
+                for shift, scale in ((0, 1), (1, 10**8), (2, sp.Rational(1, 10**8))):      # ordinary, relativistic-size and tiny SI magnitudes
+                    pt = {nm: str(scale * sp.Rational(3 + 2 * ((i + shift) % 5), 4 + i + shift)) for i, nm in enumerate(names)}
+                    if ctx.probe(f"C02:{r['name']}", f"{r['name']}: the law fails at the concrete point {pt} (the solver's own model was spurious)", fmt(pt)):
+                        break
+    from checks import c02_vectors, c02_vecwrap, c02_fieldlaws, c02_seqlaws
     c02_vectors.run(ctx, TIMEOUT_MS)
     c02_vecwrap.run(ctx, TIMEOUT_MS)
     c02_fieldlaws.run(ctx, TIMEOUT_MS)
+    c02_seqlaws.run(ctx, TIMEOUT_MS)
     ctx.extra["calculate_functions"] = len(funcs)
     ctx.extra["functions_decided"] = n_run
